@@ -49,12 +49,16 @@ ASSUMPTIONS = [
     'formula language of the correspondence: =ref, &, +, SUM, COUNT, INDEX over cells and ranges; integers, non-numeric '
     'text, logicals, blank (no numeric-looking text, no non-integral numbers, no error constants as inputs)',
     'CSE array formulas and computed references (OFFSET/INDIRECT) are not generated',
+    'cells whose graph build fails (missing sheet / external workbook) are outside the model: an evaluate of one is '
+    'the identity on the model state and must raise in pycel (with stored results pycel may return the stored value); '
+    'only cells that a successful evaluate put into the cell map are written in such histories; in-memory and .xlsx '
+    'only (a saved model cannot hold an unbuildable cell)',
     'the stored results of the .xlsx configuration are consistent with its formulas (written from a fresh evaluation)',
     'deserialised configurations: every cell is evaluated before to_file, so the saved model is the whole workbook',
 ]
 TRUSTED = ['modelled, not verified: openpyxl load/tokenizer, networkx, ruamel.yaml/json/pickle codecs, the concrete '
            'formula evaluator of pycel (compared only on the generated language)']
-REQUIRED_BUCKETS = ['nodata', 'xlsx', 'yml', 'json', 'pkl', 'nodata:exh', 'xlsx:exh', 'nodata:near', 'xlsx:near']
+REQUIRED_BUCKETS = ['nodata', 'xlsx', 'yml', 'json', 'pkl', 'nodata:exh', 'xlsx:exh', 'nodata:near', 'xlsx:near', 'nodata:fail', 'xlsx:fail']
 EXHAUSTIVE = False
 EXPLANATION = ('theorems: generic engine, all workbooks/histories/value types; correspondence: real ExcelCompiler vs '
                'compiled model per operation, plus implementation-only oracle against a from-scratch compile')
@@ -64,6 +68,7 @@ atexit.register(shutil.rmtree, TMP, ignore_errors=True)
 _FRESH = {}
 _FRESH_MEMO = {}
 _XLSX = {}
+_BAD_OUTCOMES = {}
 
 
 # ---------------------------------------------------------------------------------------------------------------
@@ -114,6 +119,9 @@ def formula_of(nodes, i, names=None):
         return '=' + '&"|"&'.join(ref(j) for j in args) + '&"|"'
     if kind == 'add':
         return f'={ref(args[0])}+{ref(args[1])}'
+    if kind == 'bad':       # unbuildable: reads a sheet that does not exist / an external workbook, or a cell that does
+        parts = [ref(j) for j in args[0]] + [["", "Missing!A1", "[other.xlsx]Sheet1!B2", "'No Such'!C3"][args[1]]]
+        return '=' + '+'.join(x for x in parts if x)
     if kind == 'sub':
         return f'={ref(args[0])}-{ref(args[1])}'
     if kind == 'eq':
@@ -139,6 +147,10 @@ def cells_of(nodes, inputs=None, names=None):
         elif n[0] == 'F':
             cells[n[1]] = formula_of(nodes, i, names)
     return cells
+
+
+def is_bad(nodes, i):
+    return nodes[i][0] == 'F' and nodes[i][2] == 'bad'
 
 
 def enc_result(nodes, i, v):
@@ -197,10 +209,17 @@ def _compiler(case, key):
         if case.get('exh'):              # the fixed workbooks of the exhaustive core are written once
             k = json.dumps(nodes)
             if k not in _XLSX:
-                _XLSX[k] = xw.write_xlsx(f'{base}-fixed{len(_XLSX)}.xlsx', cells, xw.stored_results(cells))
+                bad = {n[1] for n in nodes if n[0] == 'F' and n[2] == 'bad'}
+                stored = xw.stored_results({a: v for a, v in cells.items() if a not in bad})
+                stored.update({a: '#REF!' for a in bad})
+                _XLSX[k] = xw.write_xlsx(f'{base}-fixed{len(_XLSX)}.xlsx', cells, stored)
             return ExcelCompiler(filename=_XLSX[k])
         path = base + '.xlsx'
-        xw.write_xlsx(path, cells, xw.stored_results(cells, build_compiler(cells, dn)), dn)
+        bad = {n[1] for n in nodes if n[0] == 'F' and n[2] == 'bad'}
+        good = {a: v for a, v in cells.items() if a not in bad}
+        stored = xw.stored_results(good, build_compiler(good, dn))
+        stored.update({a: '#REF!' for a in bad})       # what Excel stores for a reference it cannot resolve
+        xw.write_xlsx(path, cells, stored, dn)
         return ExcelCompiler(filename=path)
     comp = build_compiler(cells, dn)
     for n in nodes:                      # the saved model = everything evaluated once
@@ -288,6 +307,14 @@ def impl(case):
             except Exception as exc:   # noqa
                 out.append(core.canon_exc(exc))
             fresh.append('&'.join(fresh_value(nodes, inputs, a, names) for a in op[1]))
+        elif is_bad(nodes, op[1]):
+            # an evaluate that fails at graph-build time; the caller carries on.  The cell has no from-scratch value;
+            # it must raise (with stored results pycel may hand out the stored value of a cell it had queued)
+            r = _enc_eval(nodes, comp, op[1])
+            _BAD_OUTCOMES[r.split(':')[0] + ':' + r.split(':')[1] if r.startswith('!exc') else 'value'] = \
+                _BAD_OUTCOMES.get(r.split(':')[0] + ':' + r.split(':')[1] if r.startswith('!exc') else 'value', 0) + 1
+            out.append('!fail' if r.startswith('!exc') or case['cfg'] == 'xlsx' else r)
+            fresh.append(None)
         else:
             out.append(_enc_eval(nodes, comp, op[1]))
             fresh.append(fresh_value(nodes, inputs, op[1], names))
@@ -321,6 +348,8 @@ def model_lines(case):
     for n in nodes:
         if n[0] == 'I':
             toks += ['I', n[2]]
+        elif n[0] == 'F' and n[2] == 'bad':
+            toks += ['I', 'z']          # outside the model: never referenced by a healthy node, never written
         elif n[0] == 'F':
             kind, args = n[2], n[3]
             if kind in ('cat', 'sum', 'cnt'):
@@ -335,6 +364,8 @@ def model_lines(case):
     for op in case['ops']:
         if op[0] == 'S':
             toks += ['S', str(op[1]), op[2]]
+        elif op[0] == 'E' and is_bad(nodes, op[1]):
+            toks += ['N']
         elif op[0] == 'E':
             toks += ['E', str(op[1])]
         elif op[0] == 'SR':
@@ -366,7 +397,7 @@ def oracles(results):
                 yield r.case, (f'op #{k} evaluate({where}) = {core.show(o)} but a from-scratch '
                                f'compile with the current inputs gives {core.show(f)}')
                 break
-            if o.startswith('!'):
+            if o.startswith('!') and o != '!fail':
                 yield r.case, f'op #{k} raised/returned a non-Excel value: {o}'
                 break
 
@@ -416,7 +447,8 @@ def _precedents(nodes):
         if n[0] == 'I':
             deps.append(set())
         elif n[0] == 'F':
-            deps.append(set(n[3][:1]) if n[2] == 'idx' else set(n[3][:2]) if n[2] == 'isum' else set(n[3]))
+            deps.append(set(n[3][:1]) if n[2] == 'idx' else set(n[3][:2]) if n[2] == 'isum' else
+                        set(n[3][0]) if n[2] == 'bad' else set(n[3]))
         else:
             deps.append(set(n[4]))
     clo = []
@@ -446,12 +478,14 @@ def nontrivial(case):
 
 
 def bucket(case):
-    return case['cfg'] + (':exh' if case.get('exh') else ':near' if case.get('near') else '')
+    return case['cfg'] + (':exh' if case.get('exh') else ':near' if case.get('near') else
+                          ':fail' if case.get('fail') else '')
 
 
 # ---------------------------------------------------------------------------------------------------------------
 # generators
 
+OTHER_SHEETS = ['Data 2', "O'Brien", 'a-b.c (1)', 'Été_2', "it's 100%"]
 INTS = [0, 1, -1, 2, 5, 10, -3, 7]
 TEXTS = ['a', 'b', '', 'x y', 'Zz']
 
@@ -486,18 +520,19 @@ def gen_workbook(rng, free_ranges=True):
     grids = {'Sheet1': (ncols, nrows)}
     if rng.random() < 0.35:
         k = rng.randint(1, 3)
-        grids['Data 2'] = (1, k)
+        other = rng.choice(OTHER_SHEETS)
+        grids[other] = (1, k)
         for r in range(1, k + 1):
-            order.insert(rng.randint(r - 1 if r > 1 else 0, len(order)), ('Data 2', 1, r))
+            order.insert(rng.randint(r - 1 if r > 1 else 0, len(order)), (other, 1, r))
         # keep Sheet2 rows in increasing order
-        pos = [i for i, o in enumerate(order) if o[0] == 'Data 2']
+        pos = [i for i, o in enumerate(order) if o[0] == other]
         for p, r in zip(pos, range(1, k + 1)):
-            order[p] = ('Data 2', 1, r)
+            order[p] = (other, 1, r)
     nodes, index, rng_index = [], {}, {}
     placed = set()
 
     def sheet_q(s):
-        return f"'{s}'" if ' ' in s else s
+        return s if s.isalnum() else "'" + s.replace("'", "''") + "'"
 
     def rects():
         out = []
@@ -617,35 +652,59 @@ def gen_multi_write(rng, nodes, rects, inputs, value=None):
     return ['SR', [nodes[j][1] for j in members], members, [_tok(value(j)) for j in members], 0]
 
 
-def gen_history(rng, nodes, built_all):
+def gen_history(rng, nodes, built_all, strict=False):
+    """strict (workbooks with unbuildable cells): write only to value cells that a SUCCESSFUL evaluate has put into the
+    cell map (a failed build leaves an unspecified part of its closure there), lists hold healthy cells only"""
     inputs = [i for i, n in enumerate(nodes) if n[0] == 'I']
+    healthy = [i for i in range(len(nodes)) if not is_bad(nodes, i)]
     built = set(range(len(nodes))) if built_all else set()
     clo = _precedents(nodes)
     rects = input_rects(nodes)
+    if strict:
+        rects = []
     ops = []
     for _ in range(rng.randint(1, 25)):
         r = rng.random()
-        if inputs and r < 0.12 and len(inputs) >= 2:
+        if inputs and r < 0.12 and len(inputs) >= 2 and not strict:
             ops.append(gen_multi_write(rng, nodes, rects, inputs))
         elif inputs and r < 0.5:
             cand = [i for i in inputs if i in built]
-            if not cand or rng.random() < 0.04:
+            if strict and not cand:
+                continue
+            if not cand or (rng.random() < 0.04 and not strict):
                 cand = inputs
             i = rng.choice(cand)
             ops.append(['S', i, _tok(rand_value(rng))])
         elif r < 0.58:
-            tg = [rng.randrange(len(nodes)) for _ in range(rng.randint(1, 3))]
+            tg = [rng.choice(healthy) for _ in range(rng.randint(1, 3))]
             ops.append(['EL', tg])
             for a in tg:
                 built |= {a} | clo[a]
         else:
             a = rng.randrange(len(nodes))
             ops.append(['E', a])
-            built |= {a} | clo[a]
+            if not is_bad(nodes, a):
+                built |= {a} | clo[a]
     tail = list(range(len(nodes)))
     rng.shuffle(tail)
     ops += [['E', a] for a in tail]
     return ops
+
+
+def add_unbuildable(rng, nodes):
+    """append 1-3 cells whose graph build fails: they read a missing sheet / an external workbook, directly or through
+    another such cell, next to healthy precedents at any position of the formula"""
+    cells = [i for i, n in enumerate(nodes) if n[0] != 'R']
+    bad = []
+    for b in range(rng.randint(1, 3)):
+        deps = rng.sample(cells, min(len(cells), rng.randint(0, 2)))
+        via = [x for x in bad if rng.random() < 0.5]
+        missing = rng.choice([1, 1, 2, 3]) if (not via or rng.random() < 0.6) else 0
+        args = deps + via
+        rng.shuffle(args)
+        nodes.append(['F', f'Sheet1!F{b + 1}', 'bad', [args, missing]])
+        bad.append(len(nodes) - 1)
+    return nodes
 
 
 # --- writes that are nearly equal to the current value, under formulas that amplify the difference
@@ -738,10 +797,14 @@ def _fixed():
           ['F', 'Sheet1!B1', 'idx', [2, 2, 1]], ['F', 'Sheet1!B2', 'cnt', [2, 0]]]
     w4 = [['I', 'Sheet1!A1', n_(1)], ['I', 'Sheet1!A2', n_(2)], ['R', 'Sheet1!A1:A2', 2, 1, [0, 1]],
           ['F', 'Sheet1!B1', 'sum', [2]], ['F', 'Sheet1!B2', 'add', [0, 0]]]
-    return [w1, w2, w3, w4]
+    w5 = [['I', 'Sheet1!A1', n_(1)], ['F', 'Sheet1!B1', 'add', [0, 0]], ['F', 'Sheet1!C1', 'cat', [1]],
+          ['F', 'Sheet1!E1', 'bad', [[], 1]], ['F', 'Sheet1!D1', 'bad', [[1, 3], 1]]]
+    return [w1, w2, w3, w4, w5]
 
 
 def _alphabet(w, k):
+    if k == 4:      # w5: evaluates that fail at graph-build time (two unbuildable cells, one healthy sibling queued)
+        return [['E', 0], ['E', 1], ['E', 2], ['E', 3], ['E', 4], ['S', 0, _tok(7)], ['S', 0, _tok(None)]]
     if k == 3:      # w4: multi-cell writes over a built / not yet built range, a formula reading a member directly
         return [['E', 3], ['E', 4], ['E', 2], ['SR', 'Sheet1!A1:A2', [0, 1], [_tok(5), _tok(6)], 0],
                 ['SR', ['Sheet1!A2', 'Sheet1!A1'], [1, 0], [_tok(2), _tok(1)], 0], ['S', 0, _tok(7)], ['EL', [4, 3]]]
@@ -749,6 +812,18 @@ def _alphabet(w, k):
     evals = [['E', i] for i, n in enumerate(w) if n[0] != 'I' or len(inputs) == 1][:4]
     writes = [None, False, 7] if len(inputs) == 1 else [None, True]
     return (evals + [['S', i, _tok(v)] for i in inputs for v in writes])[:7]
+
+
+def _writes_are_safe(nodes, ops):
+    """every write goes to a cell that a successful evaluate has already put into the cell map"""
+    clo = _precedents(nodes)
+    built = set()
+    for op in ops:
+        if op[0] == 'E' and not is_bad(nodes, op[1]):
+            built |= {op[1]} | clo[op[1]]
+        elif op[0] == 'S' and op[1] not in built:
+            return False
+    return True
 
 
 def exhaustive_cases(maxlen):
@@ -761,6 +836,8 @@ def exhaustive_cases(maxlen):
                     ops = [list(o) for o in h]
                     if ln == maxlen:
                         ops = ops + tail
+                    if k == 4 and not _writes_are_safe(w, ops):
+                        continue
                     yield {'cfg': cfg, 'nodes': w, 'ops': ops, 'exh': 1}
 
 
@@ -771,6 +848,10 @@ def cases(tier, rng):
         nodes, ops = gen_near(rng)
         yield {'cfg': ('nodata', 'xlsx', 'nodata', 'yml')[k % 4] if k % 8 else 'pkl', 'nodes': nodes, 'ops': ops,
                'near': 1}
+    for k in range(2500 if thorough else 250):
+        nodes = add_unbuildable(rng, gen_workbook(rng))
+        yield {'cfg': ('nodata', 'xlsx')[k % 2], 'nodes': nodes, 'ops': gen_history(rng, nodes, False, strict=True),
+               'fail': 1}
     n = 4000 if thorough else 350
     cfgs = ['nodata', 'xlsx', 'nodata', 'xlsx', 'yml', 'json', 'pkl']
     for k in range(n):
@@ -782,6 +863,9 @@ def cases(tier, rng):
             pool = ['name_a', 'rate_b', 'total_c']
             used = sorted({j for n in nodes if n[0] == 'F' and n[2] != 'isum'
                            for j in (n[3][:1] if n[2] == 'idx' else n[3])})
+            # (a defined name whose destination sheet has an apostrophe is not resolved: openpyxl hands out the
+            #  sheet as O''Brien, pycel drops the name, the formula gives #NAME? — C04/C11's subject, kept out here)
+            used = [j for j in used if "''" not in nodes[j][1]]
             for j in rng.sample(used, min(len(used), rng.randint(1, 3))):
                 names[pool[len(names)]] = j
         for _ in range(2 if thorough else 1):
